@@ -102,6 +102,9 @@ theorem exec_stx (s : State) (fmt : Fmt) (d n : Nat) (off : Int) :
 /-! straightness of the emitted shapes -/
 theorem straight_alu (op : BinOp) (long reg : Bool) (d n : Nat) (o v : Int) :
     straight ⟨op.opcode + (if reg then Consts.op_REG else 0) + longBit long, d, n, o, v⟩ = true := by
-  cases op <;> cases long <;> cases reg <;> rfl
+  cases op <;> cases long <;> cases reg <;>
+    simp [straight, BinOp.opcode, longBit, Consts.op_ADD, Consts.op_SUB, Consts.op_MUL, Consts.op_DIV,
+      Consts.op_OR, Consts.op_AND, Consts.op_LSH, Consts.op_RSH, Consts.op_MOD, Consts.op_XOR, Consts.op_ARSH,
+      Consts.op_LONG, Consts.op_REG]
 
 end Ebv.Ebpf
